@@ -95,6 +95,85 @@ class R1Obs(Observer):
                                   it.iter_elem(val), "store " + norm(stmt))
 
 
+MUTANTS = [
+    ("true division in renorm", "AegeanTools/regions.py",
+     "self.pixeldict[d-1].add(p//4)", "self.pixeldict[d-1].add(p/4)",
+     "C08-R1"),
+    ("true division in union", "AegeanTools/regions.py",
+     "pp = p//4**(d-self.maxdepth)", "pp = p/4**(d-self.maxdepth)", "C08-R"),
+    ("wrong promotion exponent", "AegeanTools/regions.py",
+     "pp = p//4**(d-self.maxdepth)", "pp = p//4*(d-self.maxdepth)",
+     "C08-R3"),
+    ("add_pixels keeps stale cache", "AegeanTools/regions.py",
+     "        self.pixeldict[depth].update(set(pix))\n        # the cached "
+     "deepest-level representation is now out of date\n        self.demoted "
+     "= set()\n", "        self.pixeldict[depth].update(set(pix))\n",
+     "C08-R2"),
+    ("union(renorm=False) stale cache", "AegeanTools/regions.py",
+     "                    self.pixeldict[self.maxdepth].add(pp)\n"
+     "            self.demoted = set()\n",
+     "                    self.pixeldict[self.maxdepth].add(pp)\n", "C08-R2"),
+    ("renorm forgets final reset", "AegeanTools/regions.py",
+     "                        self.pixeldict[d-1].add(p//4)\n        "
+     "self.demoted = set()\n        return",
+     "                        self.pixeldict[d-1].add(p//4)\n        return",
+     "C08-R2"),
+    ("loop variable after loop", "AegeanTools/regions.py",
+     "            self.demoted = pd[self.maxdepth]",
+     "            self.demoted = pd[d+1]", "C08-R2"),
+    ("without uses intersection", "AegeanTools/regions.py",
+     "        self.pixeldict[self.maxdepth].difference_update(opd)",
+     "        self.pixeldict[self.maxdepth].intersection_update(opd)",
+     "C08-R3"),
+    ("intersect without demoting self", "AegeanTools/regions.py",
+     "        self._demote_all()\n        opd = set(other.get_demoted())\n"
+     "        self.pixeldict[self.maxdepth].intersection_update(opd)",
+     "        opd = set(other.get_demoted())\n"
+     "        self.pixeldict[self.maxdepth].intersection_update(opd)",
+     "C08-R3"),
+    ("symmetric_difference no renorm", "AegeanTools/regions.py",
+     "        self.pixeldict[self.maxdepth].symmetric_difference_update(opd)"
+     "\n        self._renorm()",
+     "        self.pixeldict[self.maxdepth].symmetric_difference_update(opd)",
+     "C08-R"),
+    ("promotion keeps children", "AegeanTools/regions.py",
+     "                        self.pixeldict[d].difference_update(nset)\n",
+     "", "C08-R4"),
+    ("demotion children", "AegeanTools/regions.py",
+     "pd[d+1].update(set((4*p, 4*p+1, 4*p+2, 4*p+3)))",
+     "pd[d+1].update(set((4*p, 4*p+1, 4*p+2, 4*p+4)))", "C08-R4"),
+    ("demotion keeps source level", "AegeanTools/regions.py",
+     "                pd[d] = set()  # clear the pixels from this level\n",
+     "", "C08-R4"),
+    ("query renormalises", "AegeanTools/regions.py",
+     "        self._demote_all()\n        return self.demoted",
+     "        self._renorm()\n        self._demote_all()\n        return "
+     "self.demoted", "C08-R5"),
+    ("area skips deepest level", "AegeanTools/regions.py",
+     "        for d in range(1, self.maxdepth+1):\n            area +=",
+     "        for d in range(1, self.maxdepth):\n            area +=",
+     "C08-R6"),
+    ("flattening skips coarse levels", "AegeanTools/regions.py",
+     "            for d in range(1, self.maxdepth):\n                for p in "
+     "pd[d]:", "            for d in range(3, self.maxdepth):\n"
+     "                for p in pd[d]:", "C08-R4"),
+    ("removed numpy symbol", "AegeanTools/regions.py",
+     "result = np.isin(pix, list(pixelset))",
+     "result = np.in1d(pix, list(pixelset))", "C08-R7"),
+]
+TWINS = [
+    ("shift instead of floor division", "AegeanTools/regions.py",
+     "self.pixeldict[d-1].add(p//4)", "self.pixeldict[d-1].add(p >> 2)"),
+    ("reset through helper", "AegeanTools/regions.py",
+     "        self.pixeldict[depth].update(set(pix))\n        # the cached "
+     "deepest-level representation is now out of date\n        self.demoted "
+     "= set()\n",
+     "        self.pixeldict[depth].update(set(pix))\n        self.demoted "
+     "= set()\n"),
+]
+
+
+
 def run(ctx):
     prog = ctx.prog
     ci = region_methods(prog)
@@ -227,7 +306,7 @@ def r2(ctx, ci):
                       "get_demoted()/sky_within() answers from the stale "
                       "cache", {"mutation": norm(s)}, s,
                       path=g.describe(p) if p else None)
-    ctx.floor("C08-R2", n, 8, "mutation sites in mutating Region methods")
+    ctx.floor("C08-R2", n, 6, "mutation sites in mutating Region methods")
     # unbound loop variable in the builder
     bfi = meths[builder[0]]
     n2 = 0
